@@ -56,7 +56,16 @@ Bootstrap(filt) ==
 
 Watcher(kind, i, filt, start, pre) ==
   [kind |-> IF kind = "one" THEN "one" ELSE "all", id |-> i, filt |-> filt, start |-> start, pre |-> pre,
-   dcount |-> 0, dpos |-> start, maxlag |-> wp - start, status |-> "active"]
+   dcount |-> 0, dpos |-> start, maxlag |-> wp - start, status |-> "active",
+   remote |-> FALSE, retry |-> TRUE, faults |-> 0, lastbm |-> -2]
+
+(* C13: watches through the gRPC client adapter; e.remote / e.retry are optional fields of the start line *)
+Remote(e, r) == IF "remote" \in DOMAIN e THEN [r EXCEPT !.remote = e.remote, !.retry = e.retry] ELSE r
+(* a terminal Errored event of a remote watch is justified by a transport fault only if the stream could not be *)
+(* resumed: retries disabled, no bookmark seen yet, or the last bookmark is no longer valid                       *)
+ErroredJustified(r) ==
+  \/ r.maxlag > InitCap
+  \/ r.remote /\ r.faults > 0 /\ (~r.retry \/ r.lastbm < -1 \/ ~BookmarkAccepted(r.kind, r.lastbm, wp, CapAt(wp)))
 
 Start(e) ==
   LET c == CapAt(wp)
@@ -68,7 +77,7 @@ Start(e) ==
          THEN Reject("bookmark-outcome", [accept |-> mustAccept, p |-> e.p, wp |-> wp, cap |-> c], e.res)
          ELSE IF e.res # "ok" /\ e.res # "invalidBookmark"
          THEN Reject("bookmark-error-class", "invalidBookmark", e.res)
-         ELSE /\ wst' = IF e.res = "ok" THEN Put(wst, e.w, Watcher(kd, e.id, FALSE, e.p + 1, <<>>)) ELSE wst
+         ELSE /\ wst' = IF e.res = "ok" THEN Put(wst, e.w, Remote(e, Watcher(kd, e.id, FALSE, e.p + 1, <<>>))) ELSE wst
               /\ UNCHANGED <<log, cur, tid, bad>>
     [] OTHER ->
          IF e.res # "ok" THEN Reject("start-failed", "ok", e.res)
@@ -81,7 +90,7 @@ Start(e) ==
                   [] e.mode = "bmbootstrap" -> <<Ev("noop", 0, 0, FALSE, 0, FALSE, wp - 1)>>
                   [] e.mode = "tail" -> ExpectedTailOf(log, kd, e.id, e.n, wp, c)
                   [] OTHER -> <<>>
-              IN /\ wst' = Put(wst, e.w, Watcher(kd, e.id, e.filt, wp, pre))
+              IN /\ wst' = Put(wst, e.w, Remote(e, Watcher(kd, e.id, e.filt, wp, pre)))
                  /\ UNCHANGED <<log, cur, tid, bad>>
 
 (* ---- one received event ---- *)
@@ -96,12 +105,13 @@ Recv(e) ==
       exp == ExpectedOf(r)
   IN IF r.status = "errored" THEN Reject("event-after-errored", "", got)
      ELSE IF got.t = "errored"
-     THEN IF r.maxlag > InitCap
+     THEN IF ErroredJustified(r)
           THEN /\ wst' = [wst EXCEPT ![e.w].status = "errored"] /\ UNCHANGED <<log, cur, tid, bad>>
-          ELSE Reject("errored-without-lag", [maxlag |-> r.maxlag, initcap |-> InitCap], got)
+          ELSE Reject(IF r.remote /\ r.faults > 0 THEN "errored-although-resumable" ELSE "errored-without-lag",
+                      [maxlag |-> r.maxlag, initcap |-> InitCap, faults |-> r.faults, lastbm |-> r.lastbm, wp |-> wp], got)
      ELSE IF r.dcount >= Len(exp) THEN Reject("unexpected-event", "nothing", got)
      ELSE IF exp[r.dcount + 1] # got THEN Reject("wrong-event", exp[r.dcount + 1], got)
-     ELSE /\ wst' = [wst EXCEPT ![e.w].dcount = @ + 1,
+     ELSE /\ wst' = [wst EXCEPT ![e.w].dcount = @ + 1, ![e.w].lastbm = got.bm,
                                 ![e.w].dpos = IF got.bm >= 0 THEN got.bm + 1 ELSE @]
           /\ UNCHANGED <<log, cur, tid, bad>>
 
@@ -123,6 +133,8 @@ Next ==
        ELSE CASE e.ev = "write" -> Write(e)
               [] e.ev = "start" -> Start(e)
               [] e.ev = "recv"  -> Recv(e)
+              [] e.ev = "fault" -> /\ wst' = IF e.w \in DOMAIN wst THEN [wst EXCEPT ![e.w].faults = @ + 1] ELSE wst
+                                   /\ UNCHANGED <<log, cur, tid, bad>>
               [] e.ev = "end"   -> End
               [] OTHER -> UNCHANGED <<log, cur, wst, tid, bad>>
 
